@@ -62,14 +62,20 @@ Proof.
   intros n c Hin.
   assert (H : table_ok Tables.boxtype_table = true) by (vm_compute; reflexivity).
   assert (S : incl_sn iso_boxtype_table Tables.boxtype_table = true) by (vm_compute; reflexivity).
+  pose proof Hin as Hin0.
   apply (incl_sn_In _ _ _ S) in Hin.
   exists (boxtype_of_u32 c). split; [reflexivity|]. split; [|apply (u32_boxtype_u32 H)].
   unfold boxtype_of_u32.
   destruct (find _ Tables.boxtype_table) as [[n' c']|] eqn:F.
   - apply find_code_In in F as [Hin' ->].
-    destruct (table_ok_parts _ H) as (_ & Hc & Hnames & _).
+    destruct (table_ok_parts _ H) as (_ & Hc & _).
     assert (n' = n) by (eapply codes_unique; eauto). subst n'.
-    destruct (Hnames _ Hin) as (b & Hb & Hnb). cbn [fst] in *. now rewrite Hb.
+    (* every name of the standard's table is a constructor of the model *)
+    assert (I : forallb (fun e : string * N => match of_name (fst e) with Some _ => true | None => false end) iso_boxtype_table = true)
+      by (vm_compute; reflexivity).
+    rewrite forallb_forall in I. specialize (I _ Hin0). cbn [fst] in I.
+    destruct (of_name n) as [b|] eqn:Hb; [|discriminate I].
+    now rewrite (of_name_name _ _ Hb).
   - exfalso. assert (X : existsb (fun e : string * N => snd e =? c) Tables.boxtype_table = true).
     { apply existsb_exists. exists (n, c). split; auto. cbn. apply N.eqb_refl. }
     clear -F X. induction Tables.boxtype_table as [|x t IH]; cbn in *; [discriminate|].
